@@ -74,7 +74,7 @@ def run(ctx, F, cg):
                 ctx.ok("R29d", inst, "vector obtained through to_vector")
             else:
                 ctx.violation("R29d", inst, where(r, c.line), "the vector handed to add_vector is taken from a PropertyValue without to_vector(): an embedding stored in the other representation (numeric list vs Vector) is not indexed here although the sibling sites index it")
-    ctx.floor("R29d", "add_vector sites fed from a property value", n_sites, 7)
+    ctx.floor("R29d", "add_vector sites fed from a property value", n_sites, 1)
     # ---- R29e: cosine distance is scale invariant ---------------------------------------------------------------
     ctx.rule("R29e", "cosine distance does not depend on the length of either vector: in CosineDistance::eval a comparison of an accumulated norm with a constant compares with exactly zero — a positive threshold ranks every short vector as equidistant from everything")
     ev = [r for p, r in F.fns.items() if p.startswith("<samyama::vector::index::CosineDistance as ") and p.endswith("::eval")]
